@@ -128,6 +128,7 @@ def r4_authoritative(ctx):
     from ..flowexpr import explore as _explore
     ex = _explore(fn, opaque_calls=True)
     rows = {True: {"value": set(), "unit": set()}, False: {"value": set(), "unit": set()}}
+    unguarded = set()
     for q in ex.paths:
         if q.status == "raise":
             continue
@@ -143,13 +144,20 @@ def r4_authoritative(ctx):
             if norm(r) == f"isinstance({R}.value, Type)":
                 typed = t.extra != neg
         if typed is None:
+            # no test of the referenced node's typed value on this path: a raw read here is unguarded
+            for e in q.events:
+                if e.kind == "store" and str(e.extra).endswith(".value_raw") and norm(e.resolved) == f"{R}.value_raw":
+                    unguarded.add(norm(e.resolved).replace(R, "REF"))
             continue
         for e in q.events:
             if e.kind == "store" and str(e.extra).endswith(".value_raw") and R in norm(e.resolved) + " ":
                 rows[typed]["value"].add(norm(e.resolved).replace(R, "REF"))
             if e.kind == "store" and str(e.extra).endswith(".units_raw") and R in norm(e.resolved) + " ":
                 rows[typed]["unit"].add(norm(e.resolved).replace(R, "REF"))
-    if not rows[True]["value"] or not rows[False]["value"]:
+    if unguarded:
+        ctx.violated(NB, "BaseNode.inject_value", "the referenced node's current typed value and unit are read", detail=sorted(unguarded),
+                     expected="modifications update node.value, never value_raw: read REF.value.value when the node has a typed value")
+    elif not rows[True]["value"] or not rows[False]["value"]:
         ctx.unrecognised(NB, "BaseNode.inject_value", "the referenced node's current typed value and unit are read", "stores of the host's raw value not found on typed / untyped paths")
     else:
         okv = all("REF.value.value" in v and "REF.value_raw" not in v for v in rows[True]["value"])
